@@ -52,6 +52,31 @@ impl C07 {
       let l = s.get_lunar_day();
       (l.get_sixty_cycle().get_index() as i64, l.get_week().get_index() as i64, l.get_day() as i64, l.get_lunar_month().get_day_count() as i64)
     });
+    // a sexagenary-day view stepped by n is the view of the civil date n days on, with that date's pillar - also when the
+    // source view was taken from an hour view of the 23:00 hour (which carries the next day's pillar by convention)
+    if with_scd && jdn % 16 == 1 && i + 3 < NDAYS && i >= 60 && !(1729820..=1729900).contains(&jdn) {
+      out.class("day_view_taken_from_an_hour_view_then_stepped");
+      for (hh, n) in [(23usize, 1isize), (23, 2), (10, 1), (23, -1)] {
+        use tyme4rs::tyme::Tyme;
+        let r = guard(|| {
+          let t = tyme4rs::tyme::solar::SolarTime::from_ymd_hms(y as isize, m as usize, d as usize, hh, 30, 0);
+          let g = t.get_sixty_cycle_hour().get_sixty_cycle_day().next(n);
+          (ymd(&g.get_solar_day()), g.get_sixty_cycle().get_index() as i64)
+        });
+        let ti = (i as i64 + n as i64) as usize;
+        match r {
+          Ok((gd, gp)) if gd == c.ymd(ti) && gp == day_pillar(c.jdn(ti)) => {}
+          Ok((gd, gp)) => {
+            out.fail(env, viol(sub, "stepped_day_view_of_an_hour_view", case, &k, format!("{} {}:30 -> hour view -> day view -> next({})", c.fmt(i), hh, n), format!("{} {}", c.fmt(ti), pillar_name(day_pillar(c.jdn(ti)))), format!("{} {}", fmt_ymd(gd), pillar_name(gp))));
+            break;
+          }
+          Err(e) => {
+            out.fail(env, viol(sub, "stepped_day_view_of_an_hour_view_panics", case, &k, c.fmt(i), pillar_name(day_pillar(c.jdn(ti))), e));
+            break;
+          }
+        }
+      }
+    }
     // the sexagenary-day objects a sexagenary month lists carry the same pillar (sampled: the list costs 30 conversions)
     if with_scd && (jdn % 16 == 0 || d == 1) && (i < 60 || (1729820..=1729900).contains(&jdn)) {
       out.skip("sexagenary_month_starts_before_0001-01-01_or_overlaps_the_AD_24_hole");
